@@ -22,12 +22,33 @@ def listFacts : List (String × List Nat × List Nat) := [
   ("requestClass", Generated.requestClass, Expected.requestClass),
   ("encodeClassOutOfRange", Generated.encodeClassOutOfRange, Expected.encodeClassOutOfRange)]
 
+/-- sets of accepted lengths: a row is a length on which code and model disagree -/
+def setFacts : List (String × List Nat × List Nat) := [
+  ("acceptShort", Generated.acceptShort, Expected.acceptShort),
+  ("acceptInteger", Generated.acceptInteger, Expected.acceptInteger),
+  ("acceptInteger64", Generated.acceptInteger64, Expected.acceptInteger64),
+  ("acceptIPAddr", Generated.acceptIPAddr, Expected.acceptIPAddr),
+  ("acceptIPv6Addr", Generated.acceptIPv6Addr, Expected.acceptIPv6Addr),
+  ("acceptIFID", Generated.acceptIFID, Expected.acceptIFID),
+  ("acceptDate", Generated.acceptDate, Expected.acceptDate),
+  ("acceptVSA", Generated.acceptVSA, Expected.acceptVSA),
+  ("encString", Generated.encString, Expected.encString),
+  ("encBytes", Generated.encBytes, Expected.encBytes),
+  ("encVSA", Generated.encVSA, Expected.encVSA),
+  ("encTLV", Generated.encTLV, Expected.encTLV),
+  ("encUserPassword", Generated.encUserPassword, Expected.encUserPassword),
+  ("acceptUserPassword", Generated.acceptUserPassword, Expected.acceptUserPassword),
+  ("encTunnelPassword", Generated.encTunnelPassword, Expected.encTunnelPassword)]
+
 def astFacts : List (String × Nat) := [
   ("newUsesCryptoRand", Generated.newUsesCryptoRand),
   ("countedUnderLock", Generated.countedUnderLock),
   ("dedupAtomic", Generated.dedupAtomic)]
 
 def main : IO Unit := do
+  for (n, g, e) in setFacts do
+    for k in List.range 301 do
+      if g.contains k != e.contains k then IO.println s!"ROW\t{n}\t{k}\tgenerated={g.contains k}\tmodel={e.contains k}"
   for (n, g) in astFacts do
     if g == 0 then IO.println s!"ROW\t{n}\t-1\tgenerated=0 (determinately violated)"
   for (n, g, e) in natFacts do
